@@ -646,7 +646,8 @@ def run_models(cases, shards=None):
         return []
     if not os.path.exists(core.DRIVER):
         raise core.BuildError("extracted driver missing")
-    shards = shards or min(core.NPROC, max(1, len(cases)))
+    _big_stack()          # in this process (inherited by the children; a preexec_fn would force a slow fork)
+    shards = shards or min(4, core.NPROC, max(1, len(cases)))    # few processes: start-up dominates on a loaded machine
     chunks = [cases[i::shards] for i in range(shards)]
     procs = []
     for ch in chunks:
@@ -654,7 +655,7 @@ def run_models(cases, shards=None):
         for c in ch:
             lines.append("exec_netsys " + " ".join(BYTE_TOK[v] if 0 <= v < 256 else core.tok(v) for v in c))
         p = subprocess.Popen([core.DRIVER], stdin=subprocess.PIPE, stdout=subprocess.PIPE, stderr=subprocess.PIPE, text=True,
-                             preexec_fn=_big_stack)
+                             )
         procs.append((p, "\n".join(lines) + "\n"))
     import threading
     outs = [None] * len(procs)
@@ -780,7 +781,9 @@ class SimSuite:
                       "incomplete_runs": 0}
         self._seen = set()
         self.found = {}           # signature key -> (size, what, sig, scenario, extra)
-        self.max_tokens = 400000
+        # replaying a trace costs about 20 ms per step on a 60 KB stream in the extracted model (Z and nat stay the
+        # extracted inductives): the quick tier replays the traces up to this size, the thorough tier nearly all
+        self.max_tokens = 400000 if ctx.thorough else 30000
 
     def note(self, what, sig, sc, size, kind="impl-violation", extra=None):
         key = json.dumps(sig, sort_keys=True)
@@ -834,7 +837,7 @@ class SimSuite:
                 k, pr = sorted(P.items())[0]
                 st["samples"].append({"suite": self.name, "case": _short_sc(sc), "stream": list(k),
                                       "model_steps": pr.ops[:25], "datagrams": r.n_datagrams})
-            if len(pending) >= 64:
+            if sum(len(p[2].toks) for p in pending) >= 3000000:
                 self._flush(pending)
                 pending = []
         self._flush(pending)
@@ -845,6 +848,7 @@ class SimSuite:
         if not pending:
             return
         st = self.stats
+        pending.sort(key=lambda p: -len(p[2].toks) * (1 + len(p[2].ops)))     # longest first: balances the shards
         outs = run_models([p[2].toks for p in pending])
         for (sc, k, pr, oracle_bad, size), got in zip(pending, outs):
             st["stream_traces_replayed"] += 1
